@@ -1469,6 +1469,42 @@ pub struct C08Cfg {
     /// the follower's entire state comes from the installed snapshot; it is then restarted
     #[serde(default)]
     pub quiet: bool,
+    /// kill the follower on its n-th InstallSnapshot message (0 = never), before (false) or after (true) it has handled
+    /// it, and start it again after the given delay: an interrupted snapshot transfer that the leader resumes / repeats
+    #[serde(default)]
+    pub kill_on_snapshot_msg: u64,
+    #[serde(default)]
+    pub kill_after_handling: bool,
+    #[serde(default)]
+    pub restart_delay_ms: u64,
+    /// a third node that stays up throughout, so that the leader keeps a majority while the follower is away
+    #[serde(default)]
+    pub third_node: bool,
+}
+
+/// Signature of a recorded defect of the dependency's replication stream (C08.replication_stuck_below_compacted_log): the
+/// follower's log has not moved for 10 simulated s although the leader is well ahead, and the leader no longer holds the
+/// entry the follower needs next (its log was compacted past it) - `get_log_entries` answers the compacted range with an
+/// empty list, async-raft-ext's line-rate stream front-loads nothing, sends its buffered later entries with a gap, the
+/// follower's store refuses them, and the stream repeats that once per heartbeat for ever instead of sending a snapshot.
+async fn replication_stuck_signature(n1: &NodeH, n2: &NodeH) -> Option<String> {
+    let (m1, m2) = (metrics(n1), metrics(n2));
+    let f_next = m2.last_log_index + 1;
+    if m1.last_log_index < f_next + 5 {
+        return None;
+    }
+    let es = n1.app.raft_store.get_log_entries(f_next, f_next + 1).await.ok()?;
+    if !es.is_empty() {
+        return None;
+    }
+    advance(10_000).await;
+    let n2b = node(2)?;
+    let m2b = metrics(&n2b);
+    if m2b.last_log_index != m2.last_log_index || n2b.epoch != n2.epoch {
+        return None;
+    }
+    let lsnap = n1.app.raft_store.get_current_snapshot().await.ok().flatten().map(|s| s.index);
+    Some(format!("after a snapshot transfer that was interrupted by a kill of the follower and then completed, the follower stays at log index {} (state {:?}) while the leader is at {} (snapshot {:?}); the leader no longer holds entry {} and its replication stream keeps sending later entries the follower must refuse, once per heartbeat, instead of a snapshot", m2.last_log_index, m2b.state, m1.last_log_index, lsnap, f_next))
 }
 
 pub async fn exec_c08(script: Value) -> ExecResult {
@@ -1490,7 +1526,7 @@ pub async fn exec_c08(script: Value) -> ExecResult {
     let mut digest = 0u64;
     let mut installed = false;
     let mut findings = vec![];
-    let r: VResult<()> = async {
+    let body = async {
         let n1 = start_node(&root, 1, true, None, &cfg.base.node).await.map_err(|e| Violation::new("harness.start", e.to_string()))?;
         vensure!(wait_leader(&n1, 20_000).await.is_some(), &format!("{}.setup_no_leader", id), "node 1 did not become leader");
         advance(16_000).await;
@@ -1507,6 +1543,10 @@ pub async fn exec_c08(script: Value) -> ExecResult {
                 tokio::task::yield_now().await;
             }
         });
+        if cfg.third_node {
+            start_node(&root, 3, false, Some(1), &cfg.base.node).await.map_err(|e| Violation::new("harness.start", e.to_string()))?;
+            advance(6_000).await;
+        }
         if cfg.scenario == 1 {
             start_node(&root, 2, false, Some(1), &cfg.base.node).await.map_err(|e| Violation::new("harness.start", e.to_string()))?;
             advance(6_000).await;
@@ -1516,7 +1556,7 @@ pub async fn exec_c08(script: Value) -> ExecResult {
                 if cfg.kill {
                     kill_node(2).await;
                 } else {
-                    isolate(2, &[1, 2]);
+                    isolate(2, &[1, 2, 3]);
                 }
                 sim::count(if cfg.kill { "fault.kill" } else { "fault.isolate" }, 1);
             }
@@ -1542,6 +1582,21 @@ pub async fn exec_c08(script: Value) -> ExecResult {
             }
         }
         let snap_before = match n1.app.raft_store.get_current_snapshot().await { Ok(Some(s)) => s.index, _ => 0 };
+        if cfg.kill_on_snapshot_msg > 0 {
+            set_msg_trigger("RaftSnapshotRequest", 2, cfg.kill_on_snapshot_msg, cfg.kill_after_handling);
+            let (root2, ncfg, delay) = (root.clone(), cfg.base.node.clone(), cfg.restart_delay_ms);
+            actix_rt::spawn(async move {
+                loop {
+                    tokio::time::sleep(std::time::Duration::from_millis(50)).await;
+                    if msg_trigger_fired() && node(2).is_none() {
+                        tokio::time::sleep(std::time::Duration::from_millis(delay)).await;
+                        let _ = start_node(&root2, 2, false, Some(1), &ncfg).await;
+                        sim::count("probe.follower_restarted_inside_snapshot_transfer", 1);
+                        break;
+                    }
+                }
+            });
+        }
         // connect the follower
         if cfg.scenario == 0 || cfg.kill {
             start_node(&root, 2, false, Some(1), &cfg.base.node).await.map_err(|e| Violation::new("harness.start", e.to_string()))?;
@@ -1624,6 +1679,15 @@ pub async fn exec_c08(script: Value) -> ExecResult {
         let n2 = node(2).ok_or_else(|| Violation::new("harness.node", "follower missing"))?;
         let m2 = metrics(&n2);
         let m1 = metrics(&n1);
+        if cfg.kill_on_snapshot_msg > 0 {
+            // signature of a recorded defect (see known_findings.jsonl): after an interrupted snapshot transfer the leader's
+            // replication stream runs at line rate with entries the follower cannot append, and never falls back to a snapshot
+            if let Some(sig) = replication_stuck_signature(&n1, &n2).await {
+                sim::count("probe.replication_stuck_below_compacted_log", 1);
+                findings.push(Violation::new(&format!("{}.replication_stuck_below_compacted_log", id), sig));
+                return Ok(());
+            }
+        }
         if !ok {
             let state = format!("leader: last_log={} applied={} snapshot(before connect)={}; follower: {:?} last_log={} applied={} members={:?}", m1.last_log_index, m1.last_applied, snap_before, m2.state, m2.last_log_index, m2.last_applied, m2.membership_config.members);
             // (async-raft refreshes a follower's metrics only with the next entries it receives: in a quiet cluster they still
@@ -1640,9 +1704,36 @@ pub async fn exec_c08(script: Value) -> ExecResult {
             }
         }
         // membership as recorded by the leader
-        let want: std::collections::BTreeSet<u64> = m1.membership_config.members.iter().cloned().collect();
-        let have: std::collections::BTreeSet<u64> = n2.app.raft_store.get_membership_config().await.map(|c| c.members.into_iter().collect()).unwrap_or_default();
-        vensure!(want == have, &format!("{}.membership", id), "follower's stored membership {:?} differs from the leader's {:?}", have, want);
+        let mut want: std::collections::BTreeSet<u64> = m1.membership_config.members.iter().cloned().collect();
+        let mut have: std::collections::BTreeSet<u64> = n2.app.raft_store.get_membership_config().await.map(|c| c.members.into_iter().collect()).unwrap_or_default();
+        // (the data comparison above can succeed at once in a nearly empty cluster; the follower still has the rest of the
+        // 60 s to receive the membership entries)
+        for _ in 0..60 {
+            if want == have {
+                break;
+            }
+            advance(1_000).await;
+            if let Some(n2) = node(2) {
+                want = metrics(&n1).membership_config.members.iter().cloned().collect();
+                have = n2.app.raft_store.get_membership_config().await.map(|c| c.members.into_iter().collect()).unwrap_or_default();
+            }
+        }
+        let n2 = node(2).ok_or_else(|| Violation::new("harness.node", "follower missing"))?;
+        if want != have {
+            let mut dbg = String::new();
+            for nn in [&n1, &n2] {
+                let mm = metrics(nn);
+                let es = nn.app.raft_store.get_log_entries(mm.last_log_index.saturating_sub(8).max(1), mm.last_log_index + 1).await.unwrap_or_default();
+                let snap = nn.app.raft_store.get_current_snapshot().await.map(|s| s.map(|s| (s.index, s.membership.members.clone()))).unwrap_or(None);
+                dbg.push_str(&format!(" n{}: state={:?} term={} last_log={} applied={} core-membership={:?}/{:?} snapshot={:?} log tail: {};", nn.id, mm.state, mm.current_term, mm.last_log_index, mm.last_applied, mm.membership_config.members, mm.membership_config.members_after_consensus, snap, es.iter().map(|e| format!("{}:t{}:{}", e.index, e.term, crate::rig_l::payload_json(&e.payload).chars().take(60).collect::<String>())).collect::<Vec<_>>().join(" | ")));
+            }
+            let f_next = metrics(&n2).last_log_index + 1;
+            for stop in [f_next + 301, metrics(&n1).last_log_index + 1] {
+                let es = n1.app.raft_store.get_log_entries(f_next, stop).await.unwrap_or_default();
+                dbg.push_str(&format!(" leader.get_log_entries({}, {}) -> {} entries, first {:?}, kinds {:?};", f_next, stop, es.len(), es.first().map(|e| e.index), es.iter().take(3).map(|e| crate::rig_l::payload_json(&e.payload).chars().take(20).collect::<String>()).collect::<Vec<_>>()));
+            }
+            vfail!(&format!("{}.membership", id), "follower's stored membership {:?} differs from the leader's {:?} [[{}]]", have, want, dbg);
+        }
         // after a restart of the follower the equality holds (again)
         if cfg.restart_follower_at_end || cfg.quiet {
             stop_node(2).await;
@@ -1745,8 +1836,18 @@ pub async fn exec_c08(script: Value) -> ExecResult {
             vensure!(seen, &format!("{}.later_write_not_replicated", id), "a write made after the follower caught up is not served by it 30 simulated s later");
         }
         Ok(())
-    }
-    .await;
+    };
+    let mut stuck = false;
+    let r: VResult<()> = tokio::select! {
+        r = body => r,
+        _ = spin_stuck() => {
+            // the needs-snapshot loop ran 30 000 rounds at one simulated instant: nothing will end it (recorded defect)
+            stuck = true;
+            sim::count("probe.needs_snapshot_loop_permanent", 1);
+            Ok(())
+        }
+    };
+    let _ = stuck;
     if sim::counter("probe.needs_snapshot_loop_detected") > 0 {
         findings.push(Violation::new(&format!("{}.needs_snapshot_livelock", id), format!("while a follower needed a snapshot and the leader's snapshot policy was not met (snapshot older than half the threshold, fewer than threshold new entries) the leader and its replication stream exchanged needs-snapshot requests in a tight loop without any pause ({} bursts of 100 calls at one simulated instant); only further client writes end it - with no writes the follower is never caught up", sim::counter("probe.needs_snapshot_loop_detected"))));
     }
@@ -1773,6 +1874,14 @@ impl Check for C08 {
         cfg.kill = rng.chance(0.5);
         cfg.restart_follower_at_end = rng.chance(0.6);
         cfg.quiet = Rng::derive(seed, "C08.quiet", 0).chance(0.3);
+        let mut rk = Rng::derive(seed, "C08.killmsg", 0);
+        if rk.chance(0.3) {
+            cfg.kill_on_snapshot_msg = rk.range(1, 3);
+            cfg.kill_after_handling = rk.chance(0.6);
+            cfg.restart_delay_ms = *rk.pick(&[0u64, 100, 1500, 6000]);
+            cfg.restart_follower_at_end = true;
+            cfg.third_node = true;
+        }
         let n = rng.range(cfg.base.node.snapshot_log_size + 5, 90);
         cfg.before = rng.range(0, 10) as usize;
         let mut steps = vec![];
